@@ -189,7 +189,7 @@ Fixpoint decode_layers (fuel : nat) (l : list Z) : list layer :=
       | 7 :: r => LSystemAccount (firstn 32 r) :: decode_layers k (skipn 32 r)
       | 8 :: r => decode_layers k r   (* Box<_>: no check *)
       | 9 :: r => decode_layers k r   (* nested struct: no check *)
-      | _ => []
+      | _ => []   (* in particular 10 n, the harness marker "which validate id pins / validates" that ends a layer list *)
       end
   end.
 
